@@ -309,6 +309,20 @@ def run(ch, ctx, fault=None):
             s_anim = max(0, r0 + H - rows)
             s_final = max(0, r0 + H - (rows - 1))
             fits_screen = not sc.too_wide and sc.expect_error is None
+            # an animation that repeats forever (the default) returns only because of Ctrl-C
+            # during one of its inter-frame waits: the frame on display stays, cursor below it
+            ctrl_c_at = None
+            if sc.animation and fits_screen and ch.bool("ctrl_c", 0.25):
+                if ch.bool("forever", 0.5):
+                    sc.repeat = -1
+                    seq = seq * 4
+                    ctx.probe("infinite_animation_ended_by_ctrl_c")
+                if len(seq) >= 2:
+                    ctrl_c_at = ch.int("ctrl_c_at", 0, min(len(seq) - 2, 9))
+                    seq = seq[:ctrl_c_at + 1]
+                    ctx.op("Ctrl-C during the wait after frame #%d (repeat=%d)"
+                           % (ctrl_c_at, sc.repeat))
+                    ctx.key("ctrl_c", ctrl_c_at, sc.repeat)
             refs = {}
             if fits_screen and sc.animation and r0 - s_anim + sc.t >= 0:
                 for f in set(seq):
@@ -327,8 +341,8 @@ def run(ch, ctx, fault=None):
                 f = seq[j] if j < len(seq) else None
                 shown.append(f)
                 inf = dict(info, frame_index=j, expected_frame=f, scroll=s_anim)
-                check(j < len(seq) - 1, "more_frames_shown_than_documented", inf,
-                      "old_api.animate")
+                check(j < len(seq) - (ctrl_c_at is None), "more_frames_shown_than_documented",
+                      inf, "old_api.animate")
                 check(vt.scroll_count == s_anim, "gratuitous_scroll_during_animation",
                       lambda: dict(inf, scrolled=vt.scroll_count), "old_api.animate")
                 top = r0 - s_anim
@@ -338,6 +352,9 @@ def run(ch, ctx, fault=None):
                     check_padding(vt, sc, top, inf, "old_api.animate")
                     dw.check_outside(vt, rows, s_anim, (top, 0, top + H, W), inf,
                                      "old_api.animate")
+                if j == ctrl_c_at:
+                    ctx.probe("ctrl_c_during_inter_frame_wait")
+                    raise KeyboardInterrupt
 
             if sc.animation and fits_screen:
                 k.on_sleep = on_sleep
@@ -371,8 +388,9 @@ def run(ch, ctx, fault=None):
                   dict(info, exc=repr(exc)), "old_api.validate")
             out.drain()
             dw.terminal_restored(vt, tty, entry, True, info, "old_api.return")
-            check(not vt.errors, "malformed_control_sequence_written",
-                  lambda: dict(info, errors=vt.errors[:3]), "old_api.return")
+            if ctrl_c_at is None:       # (the interrupt handlers may write a spare terminator)
+                check(not vt.errors, "malformed_control_sequence_written",
+                      lambda: dict(info, errors=vt.errors[:3]), "old_api.return")
             if not isatty:
                 ctx.probe("not_a_tty")
                 check(vt.hide_show == 0, "cursor_visibility_sequence_written_to_non_tty",
@@ -380,7 +398,8 @@ def run(ch, ctx, fault=None):
             if sc.too_wide:
                 return
             if sc.animation:
-                check(len(shown) == len(seq) - 1, "fewer_frames_shown_than_documented",
+                check(len(shown) == len(seq) - (ctrl_c_at is None),
+                      "fewer_frames_shown_than_documented",
                       dict(info, sleeps=len(shown), frames=len(seq)), "old_api.animate")
             last = seq[-1]
             top = r0 - s_final
